@@ -674,6 +674,51 @@ fn replay_case(case: &Value) -> Value {
         }
     }
 
+    // ---- growth (DESIGN.md 6.6), conformance only: reversal of a one-hop path, on the model (upgrade to a
+    // standard path) and on the view (in place)
+    if s(&m["path"]["k"]) == "onehop" && e.get("rev").is_some() {
+        let want_ok = e["rev"]["ok"].as_bool().unwrap_or(false);
+        let hdr_model = header_of(m);
+        let r = catch(|| {
+            let mut p = hdr_model.path.clone();
+            p.try_reverse().map(|_| p.try_encode_to_vec().map_err(|x| x.to_string())).map_err(|x| x.to_string())
+        });
+        match r {
+            Err(msg) => pv(&mut pvs, "Panic:onehop-reverse:model".into(), format!("DpPath::try_reverse on a one-hop path panicked: {msg}")),
+            Ok(Err(_)) if !want_ok => {}
+            Ok(Err(er)) => drift.push(format!("one-hop upgrade: spec says reversible, model says Err({er})")),
+            Ok(Ok(_)) if !want_ok => drift.push("one-hop upgrade: spec says the second hop is not set, model reverses".into()),
+            Ok(Ok(Ok(b))) => {
+                if b != bytes_of(&e["rev"]["std"]) {
+                    drift.push("one-hop upgrade: reversed standard path differs from the spec's".into());
+                }
+            }
+            Ok(Ok(Err(er))) => drift.push(format!("one-hop upgrade: reversed path does not encode ({er})")),
+        }
+        if let DpPath::OneHop(o) = &hdr_model.path {
+            use sciparse::core::view::View;
+            let r = catch(|| {
+                o.try_encode_to_vec().ok().and_then(|b| {
+                    let mut b = b;
+                    let (v, _) = sciparse::dataplane_path::onehop::view::OneHopPathView::try_from_mut_slice(&mut b).ok()?;
+                    let ok = v.try_reverse().is_ok();
+                    Some((ok, v.as_slice().to_vec()))
+                })
+            });
+            match r {
+                Err(msg) => pv(&mut pvs, "Panic:onehop-reverse:view".into(), format!("OneHopPathView::try_reverse panicked: {msg}")),
+                Ok(Some((ok, b))) => {
+                    if ok != want_ok {
+                        drift.push(format!("one-hop view reverse: spec reversible={want_ok}, view says {ok}"));
+                    } else if ok && b != bytes_of(&e["rev"]["inplace"]) {
+                        drift.push("one-hop view reverse: bytes differ from the spec's in-place reversal".into());
+                    }
+                }
+                Ok(None) => {}
+            }
+        }
+    }
+
     // ---- the second encoder entry point: into_raw() encodes the payload on its own, the raw packet is
     // then encoded like any other; the bytes must be the same and a model without a wire form must
     // still be rejected on this route
@@ -852,7 +897,7 @@ fn record(cases_path: &str, events: &str, results: &str) {
     let mut w = NdjsonWriter::create(events);
     w.write(&json!({"ev": "meta", "spec": "WireFormat", "seed": vh_core::seed_from_env(), "corpus": corpus.len()}));
     let mut st = serde_json::Map::new();
-    let budget = if thorough { 24000 } else { 3000 };
+    let budget = if thorough { 60000 } else { 3000 };
     // (a) the corpus itself: canonical by construction, must decode and re-encode to itself
     let mut idx: Vec<usize> = (0..corpus.len()).collect();
     rng.shuffle(&mut idx);
